@@ -160,3 +160,17 @@ Proof.
   - rewrite app_length, repeat_length. lia.
   - rewrite app_length. lia.
 Qed.
+
+(* pieces of a split only contain characters of the string other than the separator *)
+Lemma split_ch_aux_forallb : forall (p : Z -> bool) sep s cur,
+  forallb (fun c => p c || (c =? sep)) s = true -> forallb p cur = true ->
+  forall x, In x (split_ch_aux sep s cur) -> forallb p x = true.
+Proof.
+  induction s as [|c t IH]; intros cur Hs Hc x Hx; cbn [split_ch_aux] in Hx.
+  - destruct Hx as [<-|[]]. rewrite forallb_forall in *. intros y Hy. apply Hc. apply in_rev. exact Hy.
+  - cbn [forallb] in Hs. apply andb_prop in Hs. destruct Hs as [H1 H2]. destruct (c =? sep) eqn:E.
+    + destruct Hx as [<-|Hx].
+      * rewrite forallb_forall in *. intros y Hy. apply Hc. apply in_rev. exact Hy.
+      * apply (IH [] H2 eq_refl x Hx).
+    + apply (IH (c :: cur)); auto. cbn [forallb]. rewrite Hc, andb_true_r. rewrite orb_false_r in H1. exact H1.
+Qed.
